@@ -116,8 +116,8 @@ def replay(ctx, scns, name, jobs=16):
     with open(fin, "w") as f:
         for s in scns:
             f.write(json.dumps(s) + "\n")
-    ctx.run(["c11drv", "-mode", "replay", "-in", fin, "-out", fout, "-seed", str(ctx.seed), "-j", str(jobs)],
-            timeout=1500)
+    ctx.run(["c11drv", "-mode", "replay", "-in", fin, "-out", fout, "-seed", str(ctx.seed), "-j", str(jobs),
+             "-tmp", ctx.path("c11", "tmp", "x")[:-2]], timeout=1500)
     trs = load_jsonl(fout)
     if len(trs) != len(scns):
         raise vlib.ToolError("driver returned %d traces for %d scenarios" % (len(trs), len(scns)))
@@ -146,6 +146,22 @@ PROBES = [
      "script": [{"h": "A", "o": "l", "r": {"t": "u", "c": "b1"}},
                 {"h": "A", "o": "l", "r": {"t": "rd", "to": "S", "ts": "https"}}]},
 ]
+
+
+# Dimensions of the replay that the design spec does not depend on (that is the claim being tested: a
+# change that makes one of them matter shows as drift and, if it leaks, as a violation).  They are
+# assigned round robin so that every combination meets every TLC configuration many times.
+REPLAY_DIMS = [("src", ["", "docker", "helper"]),           # credentials from config.Host / docker config.json / helper
+               ("naming", ["", "", "ip", "alias"]),         # host names (with conf.ports: host:port) / IPs / Name != Hostname
+               ("logfmt", ["", "json"])]                    # slog text / JSON handler
+
+
+def assign_replay_dims(scns, seed):
+    for i, s in enumerate(scns):
+        k = i + seed
+        for name, vals in REPLAY_DIMS:
+            s["conf"][name] = vals[k % len(vals)]
+            k //= len(vals)
 
 
 def detect_switches(ctx):
@@ -320,6 +336,8 @@ def run(ctx):
             raise vlib.ToolError("generators produced only %d scenarios" % len(scns))
 
     # 3. replay on the real code
+    if not ctx.replay:
+        assign_replay_dims(scns, ctx.seed)
     lap("%d scenarios generated" % len(scns))
     trs = replay(ctx, scns, "main")
     lap("replayed")
